@@ -17,7 +17,7 @@
    multiple of 512 and free+watermark+pagecache+slab < 2^61 bytes; vacuous when the
    estimate's watermark formula is not evaluated). *)
 From PV Require Import C08.Spec C08.ProofsRound C08.ProofsVM C08.ProofsSwap C08.ProofsVM2 C08.ProofsBig.
-From PV Require Import C08.PyGen Gen.C08_Tables C08.ProofsGen.
+From PV Require Import C08.PyGen Gen.C08_Tables C08.ProofsGen C08.Snap.
 
 (* ------------------------------------------------------------------ virtual_memory() *)
 (* for every kernel record that has MemTotal and MemFree the call succeeds and returns exactly
@@ -370,3 +370,21 @@ Theorem C08_gen_svmem_fields :
                       bs "buffers"; bs "cached"; bs "shared"; bs "slab"].
 Proof. exact gen_svmem_fields_model. Qed.
 Print Assumptions C08_gen_svmem_fields.
+
+(* ------------------------------------------------------------------ one call = one reading of /proc/meminfo
+   [serve n] = what the n-th open of {procfs}/meminfo inside ONE call delivers (None: the open fails): the file
+   may change, become malformed or vanish between two opens.  Every field is the demanded answer for the FIRST
+   snapshot, whatever the later opens deliver (the translated body above contains no second read:
+   calculate_avail_vmem receives the parsed dict). *)
+Theorem C08_vm_first_snapshot : forall k (serve : nat -> option bytes),
+  wf_kernel k = true -> has_total_free k = true -> float_exact k = true ->
+  serve 0%nat = Some (k_meminfo (k_mem k)) ->
+  virtual_memory_opens (k_pagesize k) serve (option_map k_zoneinfo (k_zone k)) = Val (spec_vm k).
+Proof. exact vm_first_snapshot. Qed.
+Print Assumptions C08_vm_first_snapshot.
+
+Theorem C08_swap_first_snapshot : forall k (serve : nat -> option bytes),
+  wf_kernel k = true -> serve 0%nat = Some (k_meminfo (k_mem k)) ->
+  swap_memory_opens (k_pagesize k) serve (k_sysinfo k) (option_map k_vmstat (k_vm k)) = Val (spec_swap k).
+Proof. exact swap_first_snapshot. Qed.
+Print Assumptions C08_swap_first_snapshot.
